@@ -81,16 +81,7 @@ func (fc *FuncCtx) evalSprintf(call *ast.CallExpr, st *St) ([]Term, bool) {
 	if !ok || tv.Value == nil || call.Ellipsis.IsValid() {
 		// non-constant format: uninterpreted
 		f := fc.eval(call.Args[0], st)
-		name := "fmt_sprintf"
-		sorts := []*Sort{SString}
-		ts := []Term{f}
-		for _, a := range args {
-			name += "_" + mangle(a.Sort.SMT())
-			sorts = append(sorts, a.Sort)
-			ts = append(ts, a)
-		}
-		fc.declareFun(name, sorts, SString)
-		return []Term{App(SString, name, ts...)}, true
+		return []Term{fc.sprintfUninterp(f, args)}, true
 	}
 	format := strings.Trim(tv.Value.ExactString(), "\"")
 	if s, err := unquoteConst(tv.Value.ExactString()); err == nil {
@@ -156,4 +147,19 @@ func (fc *FuncCtx) fmtVerb(v byte, a Term) Term {
 	name := fmt.Sprintf("fmt_%c_%s", v, mangle(a.Sort.SMT()))
 	fc.declareFun(name, []*Sort{a.Sort}, SString)
 	return App(SString, name, a)
+}
+
+// sprintfUninterp: fmt.Sprintf with a non-constant format is an uninterpreted function of the format
+// and the arguments in order (one function per argument sort list).
+func (fc *FuncCtx) sprintfUninterp(f Term, args []Term) Term {
+	name := "fmt_sprintf"
+	sorts := []*Sort{SString}
+	ts := []Term{f}
+	for _, a := range args {
+		name += "_" + mangle(a.Sort.SMT())
+		sorts = append(sorts, a.Sort)
+		ts = append(ts, a)
+	}
+	fc.declareFun(name, sorts, SString)
+	return App(SString, name, ts...)
 }
